@@ -10,7 +10,7 @@
    [dup_include_example]  a repeated -include repeats its -I and its mappings (what the property
                           allows: "an include path … for each -include directory")            *)
 From Coq Require Import String List Bool Arith Lia.
-From GT Require Import ProtoModel ProtoProofs.
+From GT Require Import ProtoModel ProtoProofs ProtoScan.
 Import ListNotations.
 Local Open Scope string_scope.
 Local Open Scope list_scope.
@@ -114,6 +114,28 @@ Section Extra.
     apply in_map_iff. exists (r, k). split; [reflexivity|exact Hin].
   Qed.
 End Extra.
+
+(* ------------------------------------------------------------------ the mapping clause, unconditionally *)
+(* after fix C20-go-package-scan the code's decider is right about every content
+   (ProtoScan.scan_correct), so every tree is in the domain of the mapping clause *)
+Lemma tree_agrees_all : forall n, tree_agreesb n = true.
+Proof.
+  induction n as [s c r|s ch IH] using node_ind'.
+  - cbn [tree_agreesb]. rewrite scan_agrees_all. apply orb_true_r.
+  - cbn [tree_agreesb]. apply forallb_forall. intros c Hc. rewrite Forall_forall in IH. apply IH. exact Hc.
+Qed.
+
+Theorem run_mappings_full : forall pkg_of cfg argv,
+  wf_node (c_root cfg) -> dirs_ok cfg -> run pkg_of cfg = Ok argv ->
+  forall pl, mappings_of pl argv = spec_mappings pkg_of cfg pl.
+Proof.
+  intros pkg_of cfg argv H1 H2 H3. apply run_mappings_spec; auto. apply tree_agrees_all.
+Qed.
+
+Theorem spec_mappings_of_char_full : forall pkg_of cfg inc, wf_node (c_root cfg) ->
+  NoDup (map fst (spec_mappings_of pkg_of cfg inc))
+  /\ (forall r k, In (r, k) (spec_mappings_of pkg_of cfg inc) <-> mapping_wanted pkg_of cfg inc r k).
+Proof. intros. apply spec_mappings_of_char; auto. apply tree_agrees_all. Qed.
 
 (* a repeated -include repeats its -I and its mappings; overlapping include paths map the same
    file under two relative names *)
